@@ -1,11 +1,12 @@
 import LoraVerif.Props.TieA.StateBridge
+import LoraVerif.Props.TieA.Tactics
 /-!
 # Tie A for a whole stateful method: `Session::rx2_complete`
 
 `Gen/SessionFn.lean` holds the state-passing translation of the CURRENT source of
 `Session::rx2_complete(&mut self, configuration: &mut Configuration, region)`: struct values in,
 `(Response, Session, Configuration)` out, in the checked arithmetic of `Rt` (`none` = a Rust panic).
-`rx2_complete_eq` proves it equal to the hand model's `rx2Complete` for every well-formed state
+`tieA_rx2_complete` proves it equal to the hand model's `rx2Complete` for every well-formed state
 (no panic, same response, same session, same configuration).  The proof does not name locals or
 helper methods of the source: the generated definition and whatever helpers the translator emitted
 are unfolded (`gen_unfold_helpers_SessionFn`) and both sides are evaluated under a case split on the
@@ -30,13 +31,6 @@ theorem sat_bridge {cnt : Int} (h3 : 0 ≤ cnt) (h4 : cnt ≤ 4294967295) :
   rw [Int.min_def, Nat.min_def]
   split <;> split <;> (refine ⟨_, rfl, ?_, ?_, ?_⟩ <;> omega)
 
-/-- evaluates the generated method and the model under the facts in the context -/
-macro "tie_eval" : tactic =>
-  `(tactic| simp (disch := omega) only [if_pos, if_neg, decide_eq_true_eq, decide_eq_false_iff_not, Rt.ck_u32, Option.bind_some,
-      Option.map_some, Option.map_none, ge_iff_le, Bool.false_eq_true, if_false, if_true, Option.bind_eq_bind, Option.pure_def,
-      decide_false, decide_true, Bool.not_true, Bool.not_false, beq_iff_eq, Bool.and_true, Bool.true_and, Bool.and_false,
-      Bool.false_and, Bool.and_eq_true, Bool.or_eq_true, not_true_eq_false, not_false_eq_true, *])
-
 /-- closes a leaf: response, session fields, configuration fields -/
 macro "tie_leaf" : tactic =>
   `(tactic| (simp [respOf, *] <;> omega))
@@ -45,7 +39,7 @@ macro "tie_leaf" : tactic =>
 arithmetic) never panics on a well-formed session and is the model's `rx2Complete`: same response,
 same session (counter, ADR count, confirmed flag; the fields the method cannot reach untouched), same
 configuration (data rate stepped down exactly when the model steps it down) -/
-theorem rx2_complete_eq (s0 : Session) (gs : Gen.SessionFn.Session) (g : Gen.SessionFn.Configuration) (r : RegionId)
+theorem tieA_rx2_complete (s0 : Session) (gs : Gen.SessionFn.Session) (g : Gen.SessionFn.Configuration) (r : RegionId)
     (hw : SessWF gs) :
     (Gen.SessionFn.Session.rx2_complete gs g (regionOf r)).bind
         (fun o => (respOf o.1).map (fun resp => (resp, sessOf s0 o.2.1, cfgOf o.2.2)))
@@ -104,5 +98,5 @@ example :
         (fun o => (o.1, o.2.1.fcnt_up))
       = some (.SessionExpired, 4294967295) := by decide
 
-#print axioms rx2_complete_eq
+#print axioms tieA_rx2_complete
 end TieA
